@@ -251,14 +251,14 @@ PROPS = {
     },
     "C08": {
         "required_theorems": ["c08_foreign_delivered", "c08_own_filtered", "c08_only_from_below", "c08_edge_points_delivered", "c08_order",
-                              "c08_fold_holds_store_partial", "gen_feed_pinned"],
+                              "c08_fold_holds_store", "c08_fold_rows_equal", "gen_feed_pinned"],
         "n": {"quick": 500, "thorough": 8000},
         "thorough_seeds": 3,
         "rule": "one in-process instance; per case a tree under a fresh group: an instrumented client node (type vdev, registered through the public client.NewManager) under the group or an inner group, "
                 "0-2 vchild children, a grandchild, an unrelated node, sometimes a second client with the first child mirrored below it, sometimes a diamond (child reachable by two paths), initial points; "
                 "a fresh Manager is started, its subscriptions probed live, then 1-7 observed writes (node-point batches of 1-3 points: scalar, array and map fields and undeclared types, keys ''/0/1/2/a/b; "
                 "plain edge points) on the client, children, grandchild, unrelated nodes and the other client, each batch from one origin out of: empty, the client itself, ext, u1, a child, the unrelated node, "
-                "the other client; strictly increasing timestamps; a sentinel per client closes the log. 1 in 25 cases is a race case: one foreign write is sent while the client's constructor is running. "
+                "the other client; non-decreasing time stamps (1 step in 8 repeats the previous stamp: ties between different points); a sentinel per client closes the log. 1 in 25 cases is a race case: one foreign write is sent while the client's constructor is running. "
                 "Observation = per client the ordered callback log + whether its folded configuration equals a fresh Decode of the store; oracle = foreign batches at/below present, own batches absent, "
                 "nothing from elsewhere, order of first appearances = order of writes, fold equal when nothing was self-authored; distinct = distinct case line",
         "trusted": ["embedded nats-server / nats.go: per-subscription in-order delivery", "modernc SQLite as in C05",
@@ -267,7 +267,6 @@ PROPS = {
                      "which subscriptions exist when (client start-up and restarts) is C07; every C08 case starts its own Manager after the tree is built",
                      "NATS delivery to a subscriber that cannot keep up (slow consumer drops) is outside the model"],
         "assumptions": [],
-        "partial": "c08_fold_holds_store_partial excludes two different points of one identity sharing a timestamp (the property allows non-decreasing times); such ties are covered by the correspondence run only",
     },
     "C07": {
         "required_theorems": ["c07_wanted_iff", "c07_one_client_per_placement", "c07_quiesce", "c07_exit_removes", "c07_children_current_kept", "c07_stop_returns", "gen_manager_pinned"],
